@@ -80,11 +80,229 @@ def pin_c14py() -> typing.Tuple[bool, str]:
     return False, 'shape pin c14py: the code has neither of the shapes the hand models were written for'
 
 
-GENERATORS = {'pin_c14py': pin_c14py}
+# ---------------------------------------------------------------------------------------------------------------------
+# C and C++ support headers: token-stream pin of every function of the RENDERED serialization.h / serialization.hpp, per Jinja branch.
+# The hand models Prims/CPrims.v, CPrimsW.v, F16.v (C) and CppPrims.v, PrimsExt.v (C++) describe ONE token stream of each function; any
+# other stream (comments and white space apart) fails closed: Generated/Gen_Pin_c14c.v then lacks `pin_c14c_ok` and Properties/C14.v
+# no longer builds.  Pin text: pins/c14c.txt (development time only:  python -m tools.translators.gen_c14 --update-c).
+# ---------------------------------------------------------------------------------------------------------------------
+C_HEADER = 'nunavut/support/serialization.h'
+CPP_HEADER = 'nunavut/support/serialization.hpp'
+
+
+def c_variants() -> typing.List[typing.Tuple[str, str, typing.List[str]]]:
+    """(variant name, header, nnvg arguments): the Jinja branches of the two templates are options.target_endianness
+    (little | any/big), options.enable_serialization_asserts, options.omit_float_serialization_support; the C++ standard / flavour
+    (plain, pmr, cetl) is rendered too although no branch of cpp/support/serialization.j2 tests it (the pin shows the streams equal)."""
+    out = []
+    for e in ('any', 'little', 'big'):
+        for a in (False, True):
+            for f in (False, True):
+                out.append(('c/%s/%s/%s' % (e, 'asserts' if a else 'noasserts', 'omitfloat' if f else 'float'), C_HEADER,
+                            ['--target-language', 'c', '--target-endianness', e] + (['--enable-serialization-asserts'] if a else []) +
+                            (['--omit-float-serialization-support'] if f else [])))
+    cpp = ['--target-language', 'cpp', '--experimental-languages']
+    for e in ('any', 'little'):
+        for a in (False, True):
+            for f in (False, True):
+                out.append(('cpp/c++14/%s/%s/%s' % (e, 'asserts' if a else 'noasserts', 'omitfloat' if f else 'float'), CPP_HEADER,
+                            cpp + ['--language-standard', 'c++14', '--target-endianness', e] + (['--enable-serialization-asserts'] if a else []) +
+                            (['--omit-float-serialization-support'] if f else [])))
+    out.append(('cpp/c++14/big/noasserts/float', CPP_HEADER, cpp + ['--language-standard', 'c++14', '--target-endianness', 'big']))
+    for std in ('c++17', 'c++17-pmr', 'cetl++14-17', 'c++20'):
+        out.append(('cpp/%s/any/noasserts/float' % std, CPP_HEADER, cpp + ['--language-standard', std]))
+    return out
+
+
+import re as _re
+_COMMENT = _re.compile(r'("(?:\\.|[^"\\\n])*"|\'(?:\\.|[^\'\\\n])*\')|/\*.*?\*/|//[^\n]*', _re.S)
+_TOKEN = _re.compile(r'"(?:\\.|[^"\\])*"|\'(?:\\.|[^\'\\])*\'|[A-Za-z_]\w*|\.?\d(?:[eEpP][+-]|[\w.])*|'
+                     r'->\*?|\+\+|--|<<=|>>=|<=|>=|==|!=|&&|\|\||[-+*/%&|^]=|<<|>>|::|\.\.\.|##|\S')
+_IDENT = _re.compile(r'[A-Za-z_]\w*$')
+
+
+def c_tokens(text: str) -> typing.Tuple[typing.List[str], typing.List[bool]]:
+    """comments and white space removed, line continuations joined; tokens of a preprocessor line are flagged and the line is closed
+    by a '\n' token (a directive ends at the end of its line, so the line structure of directives is part of the stream)"""
+    text = _COMMENT.sub(lambda m: m.group(1) or ' ', text.replace('\\\n', ' '))
+    toks: typing.List[str] = []
+    pp: typing.List[bool] = []
+    for line in text.split('\n'):
+        t = _TOKEN.findall(line)
+        if not t:
+            continue
+        d = t[0] == '#'
+        toks += t + (['\n'] if d else [])
+        pp += [d] * (len(t) + (1 if d else 0))
+    return toks, pp
+
+
+def c_functions(text: str) -> typing.List[typing.Tuple[str, typing.List[str]]]:
+    """[(qualified name, tokens from the first token of the declaration to the closing brace)] for every function DEFINITION, followed
+    by ('<file scope>', every remaining token): the whole file is covered, so no edit of a token escapes the pin."""
+    toks, pp = c_tokens(text)
+    n = len(toks)
+
+    def prev(i: int) -> int:
+        i -= 1
+        while i >= 0 and pp[i]:
+            i -= 1
+        return i
+
+    def back(i: int) -> int:   # index of the bracket that opens the one closed at i
+        close, opn = toks[i], {')': '(', '}': '{', ']': '['}[toks[i]]
+        d = 0
+        while i >= 0:
+            if not pp[i]:
+                d += toks[i] == close
+                d -= toks[i] == opn
+                if d == 0:
+                    return i
+            i -= 1
+        raise AssertionError('unbalanced brackets in a support header')
+
+    def fwd(i: int) -> int:
+        d = 0
+        while i < n:
+            if not pp[i]:
+                d += toks[i] == '{'
+                d -= toks[i] == '}'
+                if d == 0:
+                    return i
+            i += 1
+        raise AssertionError('unbalanced braces in a support header')
+
+    def function_name(i: int) -> typing.Optional[int]:
+        """i: index of '{'.  Index of the name token if this brace opens a function body."""
+        k = prev(i)
+        while k >= 0 and toks[k] in ('const', 'noexcept', 'override', 'final'):
+            k = prev(k)
+        if k < 0 or toks[k] != ')':
+            return None
+        m = prev(back(k))
+        while m >= 0 and toks[prev(m)] in (',', ':') and _IDENT.match(toks[m]) and toks[prev(prev(m))] in (')', '}'):
+            # constructor initialiser list  name(args) : a_(x), b_{y} {   -- walk back to the constructor itself
+            sep = toks[prev(m)]
+            k = prev(prev(m))
+            m = prev(back(k))
+            if sep == ':':
+                break
+        if m < 0 or toks[m] in ('if', 'for', 'while', 'switch', 'catch', 'static_assert', 'sizeof', 'alignof', 'decltype'):
+            return None
+        return m
+
+    segs: typing.List[typing.Tuple[str, typing.List[str]]] = []
+    rest: typing.List[int] = []
+    scopes: typing.List[str] = []
+    i = 0
+    while i < n:
+        t = toks[i]
+        if pp[i] or t not in '{}':
+            rest.append(i)
+            i += 1
+            continue
+        if t == '}':
+            assert scopes, 'unbalanced braces in a support header'
+            scopes.pop()
+            rest.append(i)
+            i += 1
+            continue
+        m = function_name(i)
+        if m is None:
+            k, name = prev(i), ''
+            while k >= 0 and toks[k] not in (';', '{', '}'):
+                if toks[k] in ('namespace', 'class', 'struct', 'union', 'enum') and _IDENT.match(toks[k + 1]) and toks[k + 1] != 'class':
+                    name = toks[k + 1]
+                k = prev(k)
+            scopes.append(name)
+            rest.append(i)
+            i += 1
+            continue
+        name = toks[m] if _IDENT.match(toks[m]) and toks[m - 1] != 'operator' else 'operator' + ''.join(toks[m - (toks[m - 1] != 'operator'):m + 1]).replace('operator', '')
+        s = m
+        while True:
+            k = prev(s)
+            if k < 0 or toks[k] in (';', '{', '}') or (toks[k] == ':' and toks[prev(k)] in ('public', 'private', 'protected')):
+                break
+            s = k
+        j = fwd(i)
+        while rest and rest[-1] >= s:
+            rest.pop()
+        segs.append(('::'.join([x for x in scopes if x] + [name]), toks[s:j + 1]))
+        i = j + 1
+    assert not scopes, 'unbalanced braces in a support header'
+    segs.append(('<file scope>', [toks[k] for k in rest]))
+    return segs
+
+
+def _render_header(job: typing.Tuple[str, str, typing.List[str]]) -> typing.Tuple[str, typing.Optional[str], str]:
+    import os
+    import shutil
+    import subprocess
+    import tempfile
+    from . import gen
+    name, header, args = job
+    out = tempfile.mkdtemp(prefix='c14pin-')
+    try:
+        env = dict(os.environ, PYTHONPATH=os.path.join(gen.REPO, 'src'))
+        p = subprocess.run([sys.executable, '-m', 'nunavut', '--generate-support', 'only', '--outdir', out] + args, env=env, stdout=subprocess.PIPE,
+                           stderr=subprocess.STDOUT, text=True, timeout=120)
+        f = os.path.join(out, header)
+        if p.returncode != 0 or not os.path.exists(f):
+            return name, None, 'nnvg failed for %s: %s' % (name, p.stdout[-400:])
+        return name, open(f, encoding='utf-8').read(), ''
+    finally:
+        shutil.rmtree(out, ignore_errors=True)
+
+
+def _dump_c() -> str:
+    import concurrent.futures
+    import hashlib
+    lines = []
+    with concurrent.futures.ThreadPoolExecutor(max_workers=8) as ex:
+        for name, text, err in ex.map(_render_header, c_variants()):
+            if text is None:
+                raise AssertionError(err)
+            seen: typing.Dict[str, int] = {}
+            for fn, toks in c_functions(text):
+                seen[fn] = seen.get(fn, 0) + 1
+                q = fn if seen[fn] == 1 else '%s#%d' % (fn, seen[fn])
+                lines.append('%s | %s | %d | %s' % (name, q, len(toks), hashlib.sha256('\x1f'.join(toks).encode()).hexdigest()[:24]))
+    return '\n'.join(lines) + '\n'
+
+
+def pin_c14c() -> typing.Tuple[bool, str]:
+    import os
+    from . import gen, shape_pin
+    out = os.path.join(gen.GEN_DIR, 'Gen_Pin_c14c.v')
+    head = gen.HEADER % ('the rendered %s and %s (%d option combinations; one token-stream hash per function)' % (C_HEADER, CPP_HEADER, len(c_variants())))
+    try:
+        cur = _dump_c()
+        pinned = open(os.path.join(shape_pin.PINS, 'c14c.txt'), encoding='utf-8').read()
+    except (OSError, AssertionError, KeyError, IndexError) as ex:
+        gen.write_if_changed(out, head + '(* token pin failed closed: %r *)\n' % (ex,))
+        return False, 'token pin c14c failed closed: %r' % (ex,)
+    if cur == pinned:
+        n = len(cur.splitlines())
+        gen.write_if_changed(out, head + 'Definition pin_c14c_ok : bool := true.\nDefinition pin_c14c_entries : nat := %d.\n' % n)
+        return True, 'ok (%d function streams in %d renderings)' % (n, len(c_variants()))
+    a, b = set(pinned.splitlines()), set(cur.splitlines())
+    changed = sorted({' | '.join(l.split(' | ')[:2]) for l in a ^ b})
+    gen.write_if_changed(out, head + '(* a function of a support header no longer has the token stream the hand model was written for *)\n')
+    return False, 'token pin c14c: %d function stream(s) differ from pins/c14c.txt, e.g. %s' % (len(changed), '; '.join(changed[:4]))
+
+
+GENERATORS = {'pin_c14py': pin_c14py, 'pin_c14c': pin_c14c}
+
 
 if __name__ == '__main__':
     import os
     from . import shape_pin
+    if sys.argv[1:2] == ['--update-c']:
+        with open(os.path.join(shape_pin.PINS, 'c14c.txt'), 'w', encoding='utf-8') as f:
+            f.write(_dump_c())
+        print('pinned c14c')
+        sys.exit(0)
     if sys.argv[1:2] == ['--update']:
         tag = sys.argv[2] if len(sys.argv) > 2 else 'c14py'
         with open(os.path.join(shape_pin.PINS, tag + '.txt'), 'w', encoding='utf-8') as f:
@@ -92,3 +310,4 @@ if __name__ == '__main__':
         print('pinned', tag)
         sys.exit(0)
     print(pin_c14py())
+    print(pin_c14c())
